@@ -14,7 +14,7 @@ case $VARIANT in
   cov) SAN="-fsanitize=address -fno-omit-frame-pointer -fprofile-instr-generate -fcoverage-mapping -DSIM_COV";;
 esac
 INC="-I$B -I$REPO/src -I$REPO -I$REPO/lib -I$REPO/lib/misc -I$B/lib/lpc -I$B/lib/efuns -I$REPO/lib/efuns -I$REPO/lib/rc -I$REPO/lib/socket -I$ROOT/sim -DHAVE_CONFIG_H -D_GNU_SOURCE -DNEOLITH_VERIF"
-WRAPS="time gettimeofday socket setsockopt bind getsockname getpeername listen ioctl fcntl accept recv send close read write eventfd epoll_create1 epoll_ctl epoll_wait isatty tcgetattr tcsetattr platform_timer_init platform_timer_start platform_timer_stop platform_timer_cleanup platform_timer_is_active console_worker_init console_worker_shutdown console_worker_destroy push_control_stack pop_control_stack log_message debug_message debug_message_with_src debug_perror_with_src fatal open open64 fopen fopen64 fdopen fileno stat lstat fstat access unlink remove rename link symlink mkdir rmdir opendir"
+WRAPS="time gettimeofday socket setsockopt bind getsockname getpeername listen ioctl fcntl accept recv send close read write eventfd epoll_create1 epoll_ctl epoll_wait isatty tcgetattr tcsetattr platform_timer_init platform_timer_start platform_timer_stop platform_timer_cleanup platform_timer_is_active console_worker_init console_worker_shutdown console_worker_destroy compile_file push_control_stack pop_control_stack log_message debug_message debug_message_with_src debug_perror_with_src fatal open open64 fopen fopen64 fdopen fileno stat lstat fstat access unlink remove rename link symlink mkdir rmdir opendir"
 WRAPS="$WRAPS $(cat $ROOT/sim/extra_wraps.txt 2>/dev/null || true)"
 WL=""
 for w in $WRAPS; do WL="$WL -Wl,--wrap=$w"; done
